@@ -168,15 +168,18 @@ theorem expandSeg_fuel (env : Env) (f g : Nat) (cs acc : Str) (hf : cs.length < 
         unfold expandSeg
         simp only
         have h0 := length_dropWhile_le (fun x => decide (x ≠ '$')) (c :: cs)
-        have h1 := length_dropWhile_le isVarChar
-          (List.drop 1 (List.dropWhile (fun x => decide (x ≠ '$')) (c :: cs)))
-        have h2 := length_dropWhile_le isVarChar
-          (List.drop 1 (List.dropWhile (fun x => decide (x ≠ '$')) (c :: cs))).tail
-        simp only [List.length_tail, List.length_drop, List.length_cons] at h0 h1 h2 hf hg
-        repeat' split
-        all_goals first
-          | rfl
-          | (apply ih <;> (try simp only [List.length_tail]) <;> omega)
+        generalize List.dropWhile (fun x => decide (x ≠ '$')) (c :: cs) = d at h0
+        cases d with
+        | nil => rfl
+        | cons x rest =>
+          have h1 := length_dropWhile_le isVarChar rest
+          have h2 := length_dropWhile_le isVarChar rest.tail
+          simp only [List.length_tail, List.length_cons] at h0 h1 h2 hf hg
+          simp only
+          repeat' split
+          all_goals first
+            | rfl
+            | (apply ih <;> (try simp only [List.length_tail]) <;> omega)
 
 /-! ### abs -/
 
